@@ -195,6 +195,16 @@ func TestC17(t *testing.T) {
 		docs.AddDefaults(rt, f.Root, 0.3, &dopts, func(n *model.Node) bool { return defaultAllowed(c, n) })
 		cfg := baseConfig()
 		cfg.ExtraImports = true
+		if rapid.IntRange(0, 2).Draw(rt, "minsized") == 0 {
+			// the relation also has to hold under --min-sized-ints, whatever that flag does to a
+			// bounded integer enum (its absolute effect is C15's open finding)
+			cfg.MinSizedInts = true
+			bounds := func(lo, hi int64) []jv.KV { return []jv.KV{{K: "minimum", V: jv.IntV(lo)}, {K: "maximum", V: jv.IntV(hi)}} }
+			prio := &model.Node{Kind: model.KEnum, EnumType: "integer", EnumVals: []jv.V{jv.IntV(0), jv.IntV(5), jv.IntV(10)}, Noise: bounds(0, 10)}
+			shift := &model.Node{Kind: model.KEnum, EnumType: "integer", EnumVals: []jv.V{jv.IntV(-1), jv.IntV(0), jv.IntV(1)}, Noise: bounds(-1, 1)}
+			f.Root.Props = append(f.Root.Props, model.Prop{Name: "zprio", Node: prio}, model.Prop{Name: "zshift", Node: shift})
+			c.Count("shape.min_sized_integer_enums")
+		}
 		cs := caseOf(cfg, []string{f.RelPath}, f)
 		countShapes(c, f, cs.Config)
 		rc := &RunCase{Case: cs}
